@@ -858,10 +858,20 @@ pub fn receive_rewards(mut deps: DepsMut, env: Env, info: MessageInfo) -> Contra
     }
 
     let amount = coin.unwrap().amount;
-    let fee = config
+    let fee = match config
         .protocol_fee_config
         .dao_treasury_fee
-        .multiply_ratio(amount, 100_000u128);
+        .checked_multiply_ratio(amount, 100_000u128)
+    {
+        Ok(fee) => fee,
+        // The fee does not fit in 128 bits, so it is certainly bigger than the rewards
+        Err(_) => {
+            return Err(ContractError::ReceiveRewardsTooSmall {
+                amount,
+                minimum: Uint128::MAX,
+            })
+        }
+    };
     let amount_after_fees = amount.checked_sub(fee);
     if amount_after_fees.is_err() {
         return Err(ContractError::ReceiveRewardsTooSmall {
